@@ -173,7 +173,7 @@ def run_harness_stage(pid, stage, tier, seed, known_sigs, only=None):
         logf = open(os.path.join(out, "shard%d.log" % k), "wb")
         procs.append((k, subprocess.Popen(cmd, stdout=logf, stderr=subprocess.STDOUT, env=env, cwd=out,
                                           start_new_session=True), logf))
-    timeout = stage.get("timeout_%s" % tier, 1500 if tier == "thorough" else 400)
+    timeout = stage.get("timeout_%s" % tier, 1500 if tier == "thorough" else 600)
     deadline = time.time() + timeout
     for k, p, logf in procs:
         try:
@@ -185,6 +185,9 @@ def run_harness_stage(pid, stage, tier, seed, known_sigs, only=None):
                 p.kill()
             p.wait()
             res.notes.append("shard %d of %s stopped at the %ds budget (inconclusive, not a violation)" % (k, stage["name"], timeout))
+            if tier == "quick":
+                # the quick tier states its coverage; a run that could not finish must not look green
+                res.infra_errors.append("shard %d of %s did not finish within the %ds quick budget (machine overloaded?)" % (k, stage["name"], timeout))
         logf.close()
     import numpy as np
     for k, p, _ in procs:
